@@ -1134,3 +1134,92 @@ func operandShape(ins ssa.Instruction) string {
 	}
 	return ""
 }
+
+// --- ON-1: nothing panics out of a once-only step ------------------------------------------------------
+
+func init() {
+	register(&Rule{ID: "ON-1", Min: 9, Run: runON1,
+		Doc: "no panic leaves a once-only step: for every call of a Do method of the once-wrappers in internal/sync, no panic value can escape the function handed to it (exception-flow summary of that function: every class raised inside is absorbed by a handler inside, reviewed invariant assertions and in-range sites aside) — a panic that unwinds through sync.Once marks it done without storing the error, so only the first caller (through a handler further out) sees the failure and every later or concurrent caller gets a nil error and a half-built object"})
+}
+
+func runON1(c *load.Ctx, r *report.RuleResult) {
+	e := xfFor(c)
+	n := 0
+	for _, fn := range c.ModuleFunctions() {
+		if load.IsAux(load.FuncPkgRel(fn)) || load.FuncPkgRel(fn) == "internal/sync" {
+			continue
+		}
+		for _, b := range fn.Blocks {
+			for _, ins := range b.Instrs {
+				call, ok := ins.(*ssa.Call)
+				if !ok {
+					continue
+				}
+				sc := call.Call.StaticCallee()
+				if sc == nil || len(call.Call.Args) < 2 {
+					continue
+				}
+				name := sc.Name()
+				if o := sc.Origin(); o != nil {
+					name = o.Name()
+				}
+				if name != "Do" || load.FuncPkgRel(sc) != "internal/sync" {
+					continue
+				}
+				var step *ssa.Function
+				switch a := call.Call.Args[1].(type) {
+				case *ssa.MakeClosure:
+					step, _ = a.Fn.(*ssa.Function)
+				case *ssa.Function:
+					step = a
+				}
+				n++
+				key := fmt.Sprintf("once-step|%s|%s", load.FuncKey(fn), onceFieldName(call.Call.Args[0]))
+				if step == nil {
+					r.Unk(key, c.Pos(call.Pos()), "the function handed to Do is not a function literal or a named function")
+					continue
+				}
+				var bad []string
+				reviewed := 0
+				esc := e.escapes[step]
+				var classes []string
+				for cl := range esc {
+					classes = append(classes, string(cl))
+				}
+				sort.Strings(classes)
+				for _, cls := range classes {
+					why := esc[xfClass(cls)]
+					if strings.HasPrefix(cls, string(xNon)+"@") {
+						if _, ok := xfAssertions[strings.TrimPrefix(cls, string(xNon)+"@")]; ok {
+							reviewed++
+							continue
+						}
+					}
+					if strings.HasPrefix(cls, string(xRt)+"@") {
+						if _, ok := xfRuntimeReviewed[strings.TrimPrefix(cls, string(xRt)+"@")]; ok {
+							reviewed++
+							continue
+						}
+					}
+					bad = append(bad, fmt.Sprintf("%s: %s", cls, why))
+				}
+				if len(bad) > 4 {
+					bad = append(bad[:4], fmt.Sprintf("… and %d more", len(bad)-4))
+				}
+				if len(bad) > 0 {
+					r.Bad(key, c.Pos(call.Pos()), "a panic can leave the once-only step (no handler inside the function handed to Do): "+strings.Join(bad, " || ")+" — the Once is then done with no error stored: later callers get nil")
+				} else {
+					r.OK(key, c.Pos(call.Pos()), fmt.Sprintf("nothing escapes the step; %d reviewed assertion(s) / in-range site(s) reachable", reviewed))
+				}
+			}
+		}
+	}
+	r.Stat("once_steps", n)
+}
+
+func onceFieldName(v ssa.Value) string {
+	if fa, ok := v.(*ssa.FieldAddr); ok {
+		return fieldName(fa.X.Type(), fa.Field)
+	}
+	return "?"
+}
